@@ -262,6 +262,27 @@ def startupCmd : List String → String
     | none => "bad-op"
   | _ => "bad-op"
 
+def tlsFacts : Tls.Facts :=
+  { floor := Gen.tlsValidateFloor, pinsUnsetMin := Gen.tlsPinsUnsetMin, cloneSharesCert := Gen.tlsCloneSharesCert }
+
+def tlsCmd : List String → String
+  | ["validate", mn, mx] => match mn.toNat?, mx.toNat? with
+    | some mn, some mx =>
+      b01 (Tls.validate tlsFacts { enabled := true, minV := mn, maxV := mx, clientAuth := 0, caSet := false, filesExist := true })
+    | _, _ => "bad-op"
+  | ["admits", gomin, mn, mx, v] => match gomin.toNat?, mn.toNat?, mx.toNat?, v.toNat? with
+    | some g, some mn, some mx, some v =>
+      b01 (Tls.admitsVersion tlsFacts g { enabled := true, minV := mn, maxV := mx, clientAuth := 0, caSet := false, filesExist := true } v)
+    | _, _, _, _ => "bad-op"
+  | ["accepts", ca, pr, ok] => match ca.toNat? with
+    | some ca => b01 (Tls.acceptsClient { enabled := true, minV := 0, maxV := 0, clientAuth := ca, caSet := true, filesExist := true } (pr == "1") (ok == "1"))
+    | none => "bad-op"
+  | ["rotate"] =>
+    let cs : Tls.Cells := { listener := 0, content := fun _ => 1, nextCell := 1 }
+    let r := Tls.cloneCell tlsFacts cs cs.listener
+    if Tls.presented (Tls.reload r.1 r.2 2) == 2 then "new" else "old"
+  | _ => "bad-op"
+
 def rlCmd (st : St) : List String → St × String
   | ["bucket", name, n, d, burst, now] =>
     match n.toNat?, d.toNat?, burst.toNat?, now.toNat? with
@@ -404,6 +425,7 @@ def step (st : St) (line : String) : St × String :=
   | "pm" :: args => pmCmd st args
   | "cfg" :: args => cfgCmd st args
   | "startup" :: args => (st, startupCmd args)
+  | "tls" :: args => (st, tlsCmd args)
   | ["reset"] => ({}, "ok")
   | _ => (st, "bad-op")
 
